@@ -69,6 +69,11 @@ try:
     for fn in ("patch.diff", "demo.py", "notes.md"):
         if os.path.exists(os.path.join(src, fn)):
             shutil.copy(os.path.join(src, fn), os.path.join(out, fn))
+    # the demonstrations load the numpy shim the authors were given; point the kept copy at seeded/shim.py
+    dp = os.path.join(out, "demo.py")
+    if os.path.exists(dp):
+        txt = open(dp).read().replace("open('/tmp/seedkit/shim.py')", "open(__import__('os').path.join(__import__('os').path.dirname(__import__('os').path.abspath(__file__)), '..', 'shim.py'))")
+        open(dp, "w").write(txt)
     with open(os.path.join(out, "meta.json"), "w") as fh:
         json.dump(meta, fh, indent=1)
     print(sid, "confirmed=%s" % meta["confirmed"], {c: (v["verdict"], v["clauses"][:4], v["wall_s"]) for c, v in meta["checks"].items()})
